@@ -44,7 +44,7 @@ def asciiLower (bs : Bytes) : Bytes := bs.map lower
 
 def respOf (resps : List (Nat × RespSpec)) (rid : Nat) : Resp :=
   let s := (lookup resps rid).getD { obj := Mhd.Resp.Resp.create 5 }
-  { obj := s.obj, closeInHandler := s.kind == "upgrade-hc", code := s.code }
+  { obj := s.obj, closeInHandler := s.kind == "upgrade-hc" || s.kind == "upgrade-hcw", code := s.code }
 
 /-- canonical text of an ordinary reply (tools/props/C20.py parses the real one into this) -/
 def renderOf (resps : List (Nat × RespSpec)) (rid : Nat) : Bytes :=
@@ -152,7 +152,7 @@ def parseResp (ws : List String) : Option RespSpec := do
     | none =>
     if w.startsWith "h=" || w.startsWith "d=" || w.startsWith "o=" || w.startsWith "f=" then some s else none
   let created : Mhd.Resp.Resp :=
-    if s0.kind == "upgrade" || s0.kind == "upgrade-hc" then Mhd.Resp.Resp.createUpgrade
+    if s0.kind.startsWith "upgrade" then Mhd.Resp.Resp.createUpgrade
     else if s0.kind == "empty" then Mhd.Resp.Resp.createEmpty {}
     else Mhd.Resp.Resp.create s0.size
   let s1 : RespSpec := { s0 with obj := created }
@@ -393,6 +393,9 @@ def stepLine0 (s : DS) (ws : List String) : DS × List String :=
       match n.toNat? with
       | some n => flush ((List.range n).foldl (fun s _ => doRound s) s)
       | none => (s, ["bad-op"])
+    -- the upgrade handler's own pace (gate inside the handler, harness only): nothing happens in the model
+    | ["up-await", _] => (s, ["ok"])
+    | ["up-release", _] => (s, ["ok"])
     | ["up-close", c] =>
       match c.toNat? with
       | some c => if (s.d.conn c).appOwns then flush { s with d := step s.d (.upClose c) } else (s, ["bad-op"])
